@@ -494,7 +494,12 @@ fn dep_configs(thorough: bool) -> Vec<DepConfig> {
     }
     for (hname, sig) in &hosts {
         for policy in 0..POLICIES.len() {
-            for shape in 0..6 {
+            for shape in 0..8 {
+                // shapes 6 and 7: two DIFFERENT files with the same base name, one written with a directory (sub/a.clinc),
+                // one bare (a.clinc), in both orders - plain spelling only
+                if shape >= 6 && policy != 0 {
+                    continue;
+                }
                 for &ma in &masks {
                     for &mb in if thorough { masks.clone() } else { vec![1, 6] }.iter() {
                         for (oi, order) in perms.iter().enumerate() {
@@ -517,7 +522,9 @@ fn dep_configs(thorough: bool) -> Vec<DepConfig> {
                                 2 => format!("(mod (X) {}(include {}) (c X (fb 1)))", sig, a_w), // a includes b
                                 3 => format!("(mod (X) {}(embed-file DATA bin {}) (c X DATA))", sig, bin_w),
                                 4 => format!("(mod (X) {}(include {}) (c X EMB))", sig, a_w), // a embeds hex
-                                _ => format!("(mod (X) {}(embed-file S sexp {}) (include {}) (c S (fa X)))", sig, sx_w, a_w),
+                                5 => format!("(mod (X) {}(embed-file S sexp {}) (include {}) (c S (fa X)))", sig, sx_w, a_w),
+                                6 => format!("(mod (X) {}(include sub/a.clinc) (include a.clinc) (c (fa X) (fs 1)))", sig),
+                                _ => format!("(mod (X) {}(include a.clinc) (include sub/a.clinc) (c (fa X) (fs 1)))", sig),
                             };
                             for d in 0..3u8 {
                                 if ma & (1 << d) != 0 {
@@ -526,6 +533,9 @@ fn dep_configs(thorough: bool) -> Vec<DepConfig> {
                                         4 => format!("(\n (embed-file EMB hex {})\n (defun fa (Y) (+ Y {}))\n)", hex_w, 10 + d),
                                         _ => format!("(\n (defun fa (Y) (+ Y {}))\n)", 10 + d),
                                     };
+                                    if shape >= 6 {
+                                        files.push((format!("d{}/sub/a.clinc", d), format!("(\n (defun fs (Y) (* Y {}))\n)", 30 + d).into_bytes()));
+                                    }
                                     if shape != 0 && shape != 3 {
                                         if policy == 7 {
                                             if !files.iter().any(|(p, _)| *p == a_d) {
@@ -576,7 +586,7 @@ fn dep_configs(thorough: bool) -> Vec<DepConfig> {
                             if shape == 0 && (ma != 1 || mb != 1) {
                                 continue;
                             }
-                            if (shape == 1) && mb != 1 {
+                            if (shape == 1 || shape >= 6) && mb != 1 {
                                 continue;
                             }
                             if shape == 3 && ma != 1 {
@@ -685,7 +695,7 @@ fn check_c18(st: &mut Stats, cfg0: &DepConfig, root: &str) {
 
 pub fn c18(thorough: bool, replay: Option<String>) -> i32 {
     let mut rep = Report::new("C18", if thorough { "thorough" } else { "quick" }, "exploration");
-    rep.rule = "every include-graph configuration of the stated family: 6 graph shapes (no include; plain include; include of an include; embed-file bin directly; embed-file hex inside an included file; embed-file sexp next to an include) x 8 file-name spellings (plain, *star-led*, in a subdirectory, quoted with a space, led by a dialect name, without extension, dot-led, absolute path outside the search directories; the non-plain spellings over a reduced presence/order set) x every presence pattern of each file name in 3 search directories (different contents per directory) x search-path permutations x host dialects. \
+    rep.rule = "every include-graph configuration of the stated family: 8 graph shapes (no include; plain include; include of an include; embed-file bin directly; embed-file hex inside an included file; embed-file sexp next to an include; two different files with one base name, written sub/a.clinc and a.clinc, in both orders) x 8 file-name spellings (plain, *star-led*, in a subdirectory, quoted with a space, led by a dialect name, without extension, dot-led, absolute path outside the search directories; the non-plain spellings over a reduced presence/order set) x every presence pattern of each file name in 3 search directories (different contents per directory) x search-path permutations x host dialects. \
         The files a compilation reads are determined without hooks: each file on disk is perturbed in turn and the program recompiled through compile_clvm_text; if the output (or error status) changes, the file was read. Every file so detected must be in gather_dependencies' listing, and every listed path must be the first match for its name in search-path order. non-trivial = distinct configurations with at least one file read and a correct listing"
         .to_string();
     rep.assumptions = vec!["a file whose perturbation cannot change the output (it is shadowed, or not reachable) is correctly treated as not read".to_string()];
